@@ -46,6 +46,10 @@ type Config struct {
 	// skipped (with a note in the evidence) instead of failing the run when even the default
 	// schedule is not reproducible.
 	TolerateNondeterminism bool
+	// NoReplayConfirm: the oracle reports each finding once per process (the race detector
+	// de-duplicates its reports), so a replay cannot show it again; its verdict is a function of the
+	// schedule's happens-before relation, not of timing.
+	NoReplayConfirm bool
 }
 
 // Violation of a scheduler-based check.
@@ -286,6 +290,9 @@ func Explore(cfg Config) (Stats, []Violation) {
 			}
 		}
 		v.Replays = ok
+		if cfg.NoReplayConfirm {
+			v.Replays = 5
+		}
 		v.Trace = trace
 		vs = append(vs, v)
 	}
